@@ -1,9 +1,9 @@
 (* C16 - key-generation messages are honoured only from peers; shares go to their owner. *)
-From DV Require Import Model.Dkg Proofs.DkgProofs.
+From DV Require Import Model.Receiver Proofs.DkgProofs Proofs.ReceiverProofs.
 Local Open Scope Z_scope.
 
 (* The five receiver handlers act only when sender_id gives a non-zero identifier (each handler's first
-   statement; Corr/CheckDkg.v's receive).  (a) sender_id is 0 for the absent name and for every name
+   statement; Model/Receiver.v's receive).  (a) sender_id is 0 for the absent name and for every name
    that is not a configured peer's; (b) it is the peer's identifier for a peer's name. *)
 Theorem C16_only_peers :
   (forall peers name, (forall i pn, In (i, pn) peers -> Some pn <> name) -> sender_id peers name = 0%N) /\
@@ -20,3 +20,34 @@ Theorem C16_share_goes_to_its_owner :
     reply = (horner (g_poly g) (idz sender), g_poly g).
 Proof. exact on_contribute_reply. Qed.
 Print Assumptions C16_share_goes_to_its_owner.
+
+(* (d) A message (any of the five) from a caller that is not a peer is refused and changes nothing;
+   from a peer it is handled by the session table with the peer's identifier as the sender. *)
+Theorem C16_stranger_refused :
+  forall peers p name m, (forall i pn, In (i, pn) peers -> Some pn <> name) -> receive peers p name m = (None, p).
+Proof. exact receive_stranger. Qed.
+Print Assumptions C16_stranger_refused.
+
+Theorem C16_peer_honoured :
+  forall peers p i nm m, NoDup (map snd peers) -> In (i, nm) peers -> i <> 0%N ->
+    receive peers p (Some nm) m = (Some (fst (sstep_ev p (to_event i m))), snd (sstep_ev p (to_event i m))).
+Proof. exact receive_peer. Qed.
+
+(* (e) Over every history of messages from any mix of callers, in every session state: deleting all
+   messages of non-peers changes neither the final table and accounts nor any reply to a peer. *)
+Theorem C16_strangers_change_nothing :
+  forall peers h p,
+    fst (hrun peers p h) = fst (hrun peers p (filter (from_peer peers) h)) /\
+    filter (fun x => match x with Some _ => true | None => false end) (snd (hrun peers p h))
+    = snd (hrun peers p (filter (from_peer peers) h)).
+Proof. exact strangers_change_nothing. Qed.
+Print Assumptions C16_strangers_change_nothing.
+
+Example C16_example :
+  let peers := [(1%N, "signer-test01"); (2%N, "signer-test02")]%string in
+  let p := {| p_id := 1; p_timeout := 100; p_now := 0; p_sessions := []; p_accounts := [] |} in
+  snd (hrun peers p [HRecv (Some "signer-test02") (RPrepare "W/a" 2 [1; 2]%N); HRecv (Some "client1") (RAbort "W/a");
+                     HRecv None (RCommit "W/a" true); HRecv (Some "signer-test02") (RContribute "W/a" true);
+                     HRecv (Some "signer-test02") (RCommit "W/a" true)]%string)
+  = [Some EOk; None; None; Some EOk; Some EOk].
+Proof. vm_compute. reflexivity. Qed.
